@@ -418,6 +418,12 @@ def one_round(sim, proto, t, round_no, flags):
 
 
 def run(sim):
+    # process-global mutable state (header-name cache) must not leak between runs in a warm worker
+    try:
+        from twisted.web import http_headers as _hh
+        _hh._nameEncoder._canonicalHeaderCache.clear()
+    except AttributeError:
+        pass
     proto = _newclient.HTTP11ClientProtocol()
     t = net.SimTransport(sim, "client")
     t.protocol = proto
